@@ -235,7 +235,7 @@ func (b *c04Built) step() (bool, error) {
 	case "controls":
 		cs, err := toGldapAll(st.Ctls)
 		if err != nil {
-			return false, err
+			return false, fmt.Errorf("toGldap: %w", err) // the harness could not build the control: not a Write error
 		}
 		b.setCtls(cs...)
 	case "addattr":
@@ -671,8 +671,11 @@ func c04Scripts(c *Ctx, useTLS bool) {
 				for key, e := range errs {
 					if strings.HasPrefix(e.Error(), "panic:") {
 						c.Violate("panic while building or writing a response", e.Error(), map[string]any{"script": scripts[key]})
-					} else {
+					} else if strings.Contains(e.Error(), "toGldap") || strings.Contains(e.Error(), "never arrived") {
 						c.Inconclusive("script error: " + e.Error())
+					} else {
+						// the client is connected and reading: a Write that reports an error has not delivered its response
+						c.Violate("Write failed on a live connection", e.Error(), map[string]any{"script": scripts[key]})
 					}
 					delete(errs, key)
 					if g := scripts[key]; len(g) > 0 {
